@@ -163,8 +163,10 @@ class Check:
             print("   rule %-10s instances=%-4d (min %d) %s" % (r, d["instances"], d["min"], d["what"]))
         for ob, k in self.known_hits:
             print("KNOWN-FINDING: property=%s %s at %s: %s" % (self.pid, k["key"], ob["site"], k["text"][:300]))
-        for v in self.violations:
-            print("  violation [%s] %s: %s (key %s)" % (v["rule"], v["site"], v["reason"], v["key"]))
+        for v in self.violations[:12]:
+            print("  violation [%s] %s: %s (key %s)" % (v["rule"], v["site"], v["reason"][:300], v["key"][:120]))
+        if len(self.violations) > 12:
+            print("  ... and %d more violation(s), see the replay file" % (len(self.violations) - 12))
         if self.violations:
             print("VIOLATION property=%s replay=%s" % (self.pid, replay))
             return 1
